@@ -144,7 +144,10 @@ static void run_cmd (const Cmd *cm) {
 	} else if (!strcmp (op, "accept")) {
 		sk[h] = p_socket_accept (sk[cm->a], &err); ok = sk[h] != NULL;
 		if (ok) { int fl = fcntl (p_socket_get_fd (sk[h]), F_GETFD); PSocketAddress *ra; cloexec = (fl != -1 && (fl & FD_CLOEXEC)) ? 1 : 0; sfam[h] = sfam[cm->a]; tx_off[h] = rx_off[h] = 0; sport[h] = -1;
-			  if ((ra = p_socket_get_remote_address (sk[h], NULL)) != NULL) { pchar *as = p_socket_address_get_address (ra); from = port_owner (p_socket_address_get_port (ra));
+			  if ((ra = p_socket_get_remote_address (sk[h], NULL)) != NULL) { pchar *as = p_socket_address_get_address (ra); { int tries; from = 0;
+				    /* (an acceptor parked in the background can be served while the connecting call of the foreground thread is still on its way back: the port
+				     * of the connecting socket is recorded by that thread right after its call - give it a moment) */
+				    for (tries = 0; tries < 300 && !(from = port_owner (p_socket_address_get_port (ra))); tries++) { struct timespec ts = { 0, 1000000 }; nanosleep (&ts, NULL); } }
 				  if (!as || strcmp (as, sfam[h] == 6 ? "::1" : "127.0.0.1")) from = -1; p_free (as); p_socket_address_free (ra); } }
 	} else if (!strcmp (op, "send")) {
 		int n = cm->a, i; char *buf = malloc (n ? n : 1);
